@@ -287,17 +287,87 @@ func minU(a, b uint32) uint32 {
 	return b
 }
 
-func Gen(r *hx.Run) {
-	nh := r.Pick(120, 2500)
+// zeroWindow: the peer closes its window while the stack has nothing in flight, the application writes,
+// and the peer stays silent: only a probe can get the connection going again.
+func (w *World) zeroWindow(r *hx.Run, c *conn, sport uint16) {
+	w.Seg(sport, LPort, 16, c.pSeq, c.sNxt, 0, c.opts(r), nil)
+	b := make([]byte, 1+r.R.Intn(2000))
+	r.R.Read(b)
+	w.Write(c.id, b)
+	w.RTO(c.id, 1500)
+	from := len(w.Seen)
+	w.Seg(sport, LPort, 16, c.pSeq, c.sNxt, 30000, c.opts(r), nil) // the window update gets through after all
+	w.observe(c, from)
+}
+
+// lossEpisode: a flight of segments of which the first is lost: duplicate ACKs, then the retransmission
+// is acknowledged partially or fully, sometimes followed by silence (timeout).
+func (w *World) lossEpisode(r *hx.Run, c *conn, sport uint16) {
+	from := len(w.Seen)
+	w.Seg(sport, LPort, 16, c.pSeq, c.sNxt, 65535, c.opts(r), nil)
+	w.observe(c, from)
+	c.sAcked = c.sNxt
+	b := make([]byte, 3000+r.R.Intn(30000))
+	r.R.Read(b)
+	from = len(w.Seen)
+	w.Write(c.id, b)
+	w.observe(c, from)
+	for j := 2 + r.R.Intn(5); j > 0; j-- {
+		from = len(w.Seen)
+		w.Seg(sport, LPort, 16, c.pSeq, c.sAcked, 65535, c.opts(r), nil)
+		w.observe(c, from)
+	}
+	switch r.R.Intn(3) {
+	case 0:
+		w.RTO(c.id, 2500)
+		if r.R.Intn(2) == 0 {
+			w.RTO(c.id, 2500)
+		}
+	case 1: // partial acknowledgement
+		if d := int(c.sNxt - c.sAcked); d > 1 {
+			c.sAcked += uint32(1 + r.R.Intn(d-1))
+			from = len(w.Seen)
+			w.Seg(sport, LPort, 16, c.pSeq, c.sAcked, 65535, c.opts(r), nil)
+			w.observe(c, from)
+		}
+	}
+}
+
+// Gen generates histories; focus (a property id) shifts the mixture towards what that property speaks about.
+func Gen(r *hx.Run, focus string) {
+	nh := r.Pick(60, 400)
+	if focus == "C03" {
+		nh = r.Pick(150, 1500)
+	}
 	if v := os.Getenv("TCP_NH"); v != "" {
 		fmt.Sscan(v, &nh)
 	}
+	steps := func() int {
+		if focus == "C03" {
+			return r.R.Intn(6)
+		}
+		return 4 + r.R.Intn(r.Pick(25, 60))
+	}
+	scenario := func(w *World, c *conn, sport uint16) {
+		k := r.R.Intn(12)
+		switch {
+		case k == 0 || (focus == "C02" && k < 3):
+			w.zeroWindow(r, c, sport)
+		case k == 3 || (focus == "C05" && k < 8):
+			w.lossEpisode(r, c, sport)
+		}
+	}
+	var prev *World
 	for h := 0; h < nh; h++ {
+		if prev != nil {
+			prev.Shut()
+		}
 		mtu := []int{1500, 1500, 576, 9000, 68 + 40, 1500}[r.R.Intn(6)]
 		sack := r.R.Intn(2) == 0
 		rcvBuf := []int{0, 0, 65536, 8192, 4096, 300000}[r.R.Intn(6)]
 		sndBuf := []int{0, 0, 65536, 8192, 4096}[r.R.Intn(5)]
 		w := New(r, mtu, sack, rcvBuf, sndBuf, "")
+		prev = w
 		sport := uint16(PPort + r.R.Intn(3))
 		if r.R.Intn(4) == 0 {
 			// active open with a pinned initial sequence number
@@ -334,7 +404,10 @@ func Gen(r *hx.Run) {
 			c.sAcked = iss + 1
 			// timestamps are on iff the peer offered them (the stack always offers)
 			w.observe(c, 0)
-			w.transfer(r, c, PPort, 4+r.R.Intn(r.Pick(25, 60)))
+			if focus != "C03" {
+				scenario(w, c, PPort)
+			}
+			w.transfer(r, c, PPort, steps())
 			continue
 		}
 		w.Listen(10)
@@ -365,7 +438,25 @@ func Gen(r *hx.Run) {
 			continue
 		}
 		c.id = len(w.Eps) - 1
-		w.transfer(r, c, sport, 4+r.R.Intn(r.Pick(25, 60)))
+		if focus != "C03" {
+			scenario(w, c, sport)
+		} else {
+			// make the new connection speak, so that the sequence number it starts from can be compared
+			// with the one its handshake agreed on
+			from := len(w.Seen)
+			w.Write(c.id, []byte{byte(h)})
+			w.observe(c, from)
+			// resets at the established connection: in the window, far outside it, with and without ACK
+			switch r.R.Intn(5) {
+			case 0:
+				w.Seg(sport, LPort, 4, c.pSeq, 0, 0, nil, nil)
+			case 1:
+				w.Seg(sport, LPort, 20, c.pSeq+uint32(r.R.Intn(1000)), c.sNxt, 0, nil, nil)
+			case 2:
+				w.Seg(sport, LPort, 4, c.pSeq+uint32(3<<20), 0, 0, nil, nil)
+			}
+		}
+		w.transfer(r, c, sport, steps())
 	}
 	r.Extra["quiesce_timeouts"] = QuiesceTimeouts
 }
